@@ -83,7 +83,7 @@ def exhaustive_tokens(rng, tier):
 def generate(rng, tier):
     cases = exhaustive_tokens(rng, tier)
     n = 0
-    nschema = 250 if tier == "quick" else 1500
+    nschema = 250 if tier == "quick" else 700
     per = 30 if tier == "quick" else 60
     schemas = [(s, True) for s in hand_schemas()]
     for _ in range(nschema):
